@@ -25,11 +25,11 @@ func init() {
 
 // codecFacts: what one half of the codec handles, extracted from its SSA.
 type codecFacts struct {
-	kinds     map[int64]bool  // reflect.Kind constants compared with Kind()
-	specials  map[string]bool // reflect.Type globals compared with the value's type
-	convNames map[string]bool // first-field names tested ("Value", "List", "Present")
-	usesParse bool            // calls parseFieldParameters
-	elemTagCleared bool       // list elements are processed with tagNumber == nil
+	kinds          map[int64]bool  // reflect.Kind constants compared with Kind()
+	specials       map[string]bool // reflect.Type globals compared with the value's type
+	convNames      map[string]bool // first-field names tested ("Value", "List", "Present")
+	usesParse      bool            // calls parseFieldParameters
+	elemTagCleared bool            // list elements are processed with tagNumber == nil
 	elemCallFound  bool
 }
 
